@@ -3,7 +3,7 @@ CONSTANTS
   Refs = {1, 2}
   Pushers = {1, 2}
   Inits <- Inits01
-  Pushes <- RaceMC
+  PushIn <- RaceMC
   CheckCas = TRUE
   CheckObj = TRUE
   AtomicMode = "txn"
